@@ -210,7 +210,7 @@ def run_shard(shard, tier, seed, acc):
             except Exception:  # noqa
                 continue
             if s in enc and enc[s] != n:
-                acc.violation("C20:not-injective", {"kind": "int", "value": n},
+                acc.violation("C20:not-injective", {"kind": "pair", "values": [enc[s], n]},
                               "two UUIDs share one short string", [enc[s], n, s], "distinct strings")
             enc[s] = n
         return
@@ -291,6 +291,12 @@ def run_shard(shard, tier, seed, acc):
 def replay(case, acc):
     if case["kind"] == "int":
         _report(acc, check_int(int(case["value"]), acc, "replay"), case)
+    elif case["kind"] == "pair":
+        a, b = (int(x) for x in case["values"])
+        sa, sb = (impl.uuid_to_short_str(uuid.UUID(int=x)) for x in (a, b))
+        if a != b and sa == sb:
+            acc.violation("C20:not-injective", case, "two UUIDs share one short string", [a, b, sa],
+                          "distinct strings")
     elif case["kind"] == "str":
         _report(acc, check_str(case["value"], acc), case)
     else:
